@@ -791,7 +791,9 @@ func (fe *FuncEnc) storeAddr(st *State, a *Addr, v string) {
 		fn := "at_" + mangle(string(es))
 		fe.pre.decl(fmt.Sprintf("(declare-fun %s (%s Slice Int) %s)", fn, fe.heapSorts[h], es))
 		nh := fe.hget(st, h)
-		fe.assume(fmt.Sprintf("(forall ((qs Slice) (qi Int)) (! (=> (not (= (s_base qs) %s)) (= (%s %s qs qi) (%s %s qs qi))) :pattern ((%s %s qs qi))))", base, fn, nh, fn, cur, fn, nh))
+		// exact element view after the store: the stored cell reads v, every other cell (of this and of any other
+		// backing array) reads as before
+		fe.assume(fmt.Sprintf("(forall ((qs Slice) (qi Int)) (! (= (%s %s qs qi) (ite (and (= (s_base qs) %s) (= (+ (s_off qs) qi) %s)) %s (%s %s qs qi))) :pattern ((%s %s qs qi))))", fn, nh, base, idx, v, fn, cur, fn, nh))
 	default:
 		fe.storeRef(st, a.ref, a.T, v)
 	}
